@@ -6,7 +6,7 @@ P = {
  "C01": ("reference-model monitor: set(Select/Evaluate delivery) vs independent XPath 1.0 evaluator, exhaustive over axis pairs/tests/separators and all small tree shapes", "3 C01",
          "Every predicate-free 1- and 2-step path (all 144 axis pairs x node tests x {/,//} x {abs,rel}, explicit and abbreviated; thorough: all 1728 axis triples) is executed by the real engine from EVERY node of every ordered tree shape with <= 4 (thorough 5) elements and of seeded random trees, plus random 1-5 step paths; an online oracle compares the set of delivered nodes (Select, and the iterator returned by Evaluate) with the denotation computed by an independent reference evaluator. Exhaustive within the stated bounds, sampled beyond; this is the right level because the property quantifies over small finite dimensions (axes, tests) crossed with unbounded ones (trees)."),
  "C02": ("reference-model monitor on predicate paths + predicate-alone evaluation; exhaustive step-axis x predicate-axis matrix; data-directed literals, cursor-hostile and/or operands", "3 C02",
-         "Exhaustive 12x12 matrix step-axis::t[pred-axis::t] (plain, not(), below //) from every node of all small tree shapes, plus seeded random predicate paths (nesting <= 2) on documents where candidates share ancestors/siblings; engine result sets are compared with the reference, and the predicate is also evaluated alone on a candidate. Exploration: detects state leaking between candidates on the executions produced."),
+         "Exhaustive 12x12 matrix step-axis::t[pred-axis::t] (plain, not(), below //) from every node of all small tree shapes, exhaustive 12x12 matrix of two-step predicate paths on all shapes with <= 5 elements, plus seeded random predicate paths (nesting <= 2) on documents where candidates share ancestors/siblings; engine result sets are compared with the reference, and the predicate is also evaluated alone on a candidate. Exploration: detects state leaking between candidates on the executions produced."),
  "C03": ("reference-model monitor over an exhaustive grid of positional forms x step prefixes on wide documents with many parents of different fan-out", "3 C03",
          "Grid of every positional predicate form on child steps under 9 prefixes (incl. //, */, descendant::*/, ancestor-or-self::*/) with optional trailing boolean predicate, and (flat)[n] / (//t)[n], from every node of wide documents; plus random positional paths. Compared as sets with the reference (proximity position per parent)."),
  "C04": ("metamorphic history monitor: every observation on a used *Expr vs the same operation on a fresh Compile (full sequences, scalar values and types, abort classes)", "3 C04",
@@ -14,7 +14,7 @@ P = {
  "C05": ("Go race detector on stress rounds sharing *Expr between goroutines + per-operation comparison with solo results", "3 C05",
          "Race-detector build of the worker runs rounds of 2-16 goroutines x 5-20 operations on 1-3 shared compiled expressions (Select drained/abandoned, Evaluate, Compile, regexp functions) with seeded yields at navigator calls; every DATA RACE block mentioning package xpath, every result differing from its solo digest and every fatal error is a violation. Evidence counts overlapping operation pairs on the same *Expr and distinct interleavings; sampled schedules, not enumerated."),
  "C06": ("process-level totality monitor: result-shape assertions on Compile/CompileWithNS/MustCompile, crash attribution to the announced case, CPU watchdog; nesting every recursive grammar construct to 10^k", "3 C06",
-         "Every recursive construct of the grammar nested to depth 10..4*10^5 (thorough 3*10^6), every iterative construct to length 10^6 (thorough 3*10^6), all byte truncations of generated expressions, 200k (thorough 2M) random token/byte strings; each through the three entry points with nil/empty/bound maps. A worker that dies (stack exhaustion) is attributed to the announced input."),
+         "Every recursive construct of the grammar nested to depth 10..4*10^5 (thorough 3*10^6), every iterative construct to length 10^6 (thorough 3*10^6), all byte truncations of generated expressions, 200k (thorough 8M) random token/byte strings, every function x 0-3 arguments over 9 argument kinds, long inputs ending in multi-byte/invalid UTF-8 at every offset; each through the three entry points with nil/empty/bound maps. A worker that dies (stack exhaustion) is attributed to the announced input."),
  "C07": ("reference-model monitor over the exhaustive operand-type matrix with data-directed literals; short-circuit observed through an aborting right operand; every case as Evaluate and as predicate", "3 C07",
          "Operator x operand-type matrix within the stated combinations, literals drawn from the values present in the compared node-set, and/or over all 4x4 type pairs with known truth values and an aborting right operand, cursor-moving left operands; compared exactly with the reference, both as top-level Evaluate and inside a Select predicate."),
  "C08": ("reference-model monitor: exact float64 identity (NaN=NaN, +0=-0) on exhaustive lexical/operand grids and random arithmetic trees", "3 C08",
@@ -22,7 +22,7 @@ P = {
  "C09": ("reference-model monitor with an exhaustive substring(string,start,length) sweep and all pairs/triples of a 14-string alphabet", "3 C09",
          "Exhaustive sweep of substring over 14 strings x starts -3..len+3 step 0.5 x lengths absent/-2..len+4 step 0.5/100 (+ NaN/Infinity), every other function over all pairs of the alphabet, random nestings to depth 4 with node-set arguments; exact equality with the reference."),
  "C10": ("parse-tree monitor through the verif hook vs an independent reference parser, exhaustive over operator chains; whitespace and abbreviation metamorphic pairs (tree and value)", "3 C10",
-         "All operator chains of length <= 4 over the 14 binary operators (41370 sequences x 3 operand/unary-minus variants; quintuples sampled, exhaustive in thorough) parsed by the real parser (hook) and by the reference parser; every chain and generated expression re-tokenised with no/conventional/maximal whitespace; every abbreviation expanded position by position."),
+         "All operator chains of length <= 4 over the 14 binary operators (41370 sequences x 3 operand/unary-minus variants; quintuples sampled, exhaustive in thorough) parsed by the real parser (hook) and by the reference parser; the VALUE of all 30940 chains of length <= 4 over 13 operators with distinct numeric operands vs the reference (needs no hook); every chain and generated expression re-tokenised with no/conventional/maximal whitespace; every abbreviation expanded position by position."),
  "C11": ("reference-model monitor on the delivery multiset of unions; directed identity-collision search over all node pairs of hostile-name documents", "3 C11",
          "For every pair of distinct nodes of hostile-name documents the union of their two address paths must deliver exactly 2 nodes; random unions (nested, overlapping, sequence form) compared as multisets with the reference set union."),
  "C12": ("sequence monitor for flat paths vs reference document order + engine-vs-engine iterator protocol relations (Evaluate/Select, count, reverse, extra MoveNext, Current, copied navigators)", "3 C12",
@@ -34,7 +34,7 @@ P = {
  "C15": ("panic-classifying monitor (runtime.Error vs deliberate error) + navigator-op budget for termination + result-type assertion on token-level generated expressions", "3 C15",
          "Token-level expression texts ignoring typing (31 functions x 0-4 args, 13 axes, variables, all operators, filters on non-node-sets) and a function x argument-kind grid; every text Compile accepts is run through Select and Evaluate from all kinds of context nodes; a recovered runtime.Error, an exhausted op budget or an undocumented result type is a violation."),
  "C16": ("differential monitor vs Go regexp + per-event cache monitors with harness-controlled load() (barriers, scripted failures), observer goroutine on the stats hook, race detector", "3 C16",
-         "Regex grammar x subjects x templates vs Go's regexp through Evaluate; EVERY key sequence of length <= 6 over 4 keys x 5 capacities x 4 failure scripts sequentially; concurrent histories of 2-16 goroutines with load() blocking in the unlocked miss window; swapped RegexpCache; -race build."),
+         "Regex grammar x subjects x templates vs Go's regexp through Evaluate, also with patterns/templates taken from the document; EVERY key sequence of length <= 6 over 4 keys x 5 capacities x 4 failure scripts sequentially; concurrent histories of 2-16 goroutines with load() blocking in the unlocked miss window; swapped RegexpCache; -race build."),
  "C17": ("rejection monitor over token-level damage operators applied at every position of generated valid expressions, filtered by the reference parser", "3 C17",
          "Every damage class of the statement applied at every applicable token position of generated valid expressions (about 17 damaged texts per expression); a damaged text the reference parser/validator also rejects must be rejected by Compile."),
 }
@@ -69,7 +69,7 @@ m = {
  ],
  "checks": checks,
  "not_applicable": [],
- "notes": "Technique family: runtime monitoring and sanitizers. Exit codes of every check: 0 held on everything explored, 1 violation (VIOLATION line + replay file), 2 inconclusive (INCONCLUSIVE line). Known findings: /verif/known_findings.json (KF-1 for C15, KF-2 for C02; 'fixed' entries are regression witnesses). VERIF_SEED selects the seeded part of every workload; exhaustive parts do not depend on it.",
+ "notes": "Technique family: runtime monitoring and sanitizers. Exit codes of every check: 0 held on everything explored, 1 violation (VIOLATION line + replay file), 2 inconclusive (INCONCLUSIVE line). Fault injection: every 8th case of the sequential value monitors first runs evaluations that abort half-way (recovered), C04/C05/C06/C15 re-make a fixed list of canary calls whose results must not depend on earlier calls. Known findings: /verif/known_findings.json (KF-1 for C15, KF-2 for C02; 'fixed' entries are regression witnesses). VERIF_SEED selects the seeded part of every workload; exhaustive parts do not depend on it.",
 }
 json.dump(m, open("/verif/MANIFEST.json", "w"), indent=1)
 print("wrote MANIFEST.json with", len(checks), "checks")
